@@ -1,5 +1,5 @@
 (* MdDoc.v — MarkdownRenderer applied to the core AST (renderers/markdown.py and renderers/_list.py): every render
-   method as a function of the token, the list renderer with its per-item line reassembly, textwrap.indent for quotes,
+   method as a function of the token, the list renderer with its per-item line reassembly, the line-by-line prefix for quotes,
    the reference definitions appended by __call__.  The control skeletons with constants of all these functions are
    compared on every run (MdRenderGen); the patterns are regenerated (RxGen).  Definitions only. *)
 From Coq Require Import ZArith List Bool Lia.
@@ -21,8 +21,24 @@ Fixpoint splitlines_keep_aux (s : str) (cur : str) : list str :=
   end.
 Definition splitlines_keep (s : str) : list str := splitlines_keep_aux s [].
 
-(* textwrap.indent(text, prefix, lambda _: True) *)
-Definition indent_all (prefix text : str) : str := flat_map (fun line => prefix ++ line) (splitlines_keep text).
+(* text.split("\n") without the empty piece behind a final line feed (_render_list_item): only a line feed ends a line *)
+Fixpoint lines_lf_aux (s : str) (cur : str) : list str :=
+  match s with
+  | [] => match cur with [] => [] | _ => [rev cur] end
+  | c :: r => if (c =? 10)%Z then rev cur :: lines_lf_aux r [] else lines_lf_aux r (c :: cur)
+  end.
+Definition lines_lf (s : str) : list str := lines_lf_aux s [].
+
+(* _line_re.findall(text), _line_re = [^\n]*\n|[^\n]+ : the lines with their line feeds *)
+Fixpoint lines_lf_keep_aux (s : str) (cur : str) : list str :=
+  match s with
+  | [] => match cur with [] => [] | _ => [rev cur] end
+  | c :: r => if (c =? 10)%Z then rev (c :: cur) :: lines_lf_keep_aux r [] else lines_lf_keep_aux r (c :: cur)
+  end.
+Definition lines_lf_keep (s : str) : list str := lines_lf_keep_aux s [].
+
+(* "".join("> " + line for line in _line_re.findall(text)) *)
+Definition indent_all (prefix text : str) : str := flat_map (fun line => prefix ++ line) (lines_lf_keep text).
 
 Section Md.
 Variable U : uni.
@@ -75,7 +91,7 @@ Definition get_fenced_marker (code : str) : str :=
 
 (* _render_list_item: the rendered children of an item, reassembled line by line behind the marker *)
 Definition item_text (leading text : str) : str :=
-  let lines := splitlines text in
+  let lines := lines_lf text in
   let first := match lines with l :: _ => l | [] => [] end in
   let prefix := repeat 32 (length leading) in
   leading ++ first ++ [10] ++ flat_map (fun line => match line with [] => [10] | _ => prefix ++ line ++ [10] end) (tl lines).
